@@ -2,6 +2,7 @@
 //! `vmux <ID> --tier quick|thorough --out FILE [--replay FILE] [--threads N]`
 
 mod apps;
+mod bytepipe;
 mod codec;
 mod dbgtrace;
 mod drivers;
